@@ -141,6 +141,9 @@ func meta(rng *rand.Rand, e *Entry, o Options) {
 			if rng.Intn(2) == 0 {
 				v = []byte(fmt.Sprintf("value-%d", rng.Intn(1000)))
 			}
+			if rng.Intn(6) == 0 {
+				v = append(v, 0) // binary attributes (capabilities, ACLs) routinely end in a zero byte
+			}
 			e.Xattrs[fmt.Sprintf("user.k%d", rng.Intn(5))] = string(v)
 		}
 	}
